@@ -10,7 +10,10 @@
 (*   rem      : returns <<head, TRUE>> and removes it; returns <<0, FALSE>> *)
 (*              only if the queue is closed and empty; otherwise waits      *)
 (*   close    : closes                                                      *)
-(*   clear    : discards every value (RemoveAll)                            *)
+(*   clear    : discards every value (RemoveAll); on a closed queue the     *)
+(*              property is silent about whether the queue is open again    *)
+(*              afterwards (the code re-opens it): both are allowed, and    *)
+(*              what follows in the history decides                         *)
 (*   size = s : s <= Cap and s <= Len(q)   (never more than capacity, never *)
 (*              values that are not there)                                  *)
 (*   empty = b: b = FALSE only if the queue is non-empty                    *)
@@ -40,10 +43,10 @@ CanLin(st, c, r, inflight) ==
                               /\ SubSeq(r.v, k + 1, Len(r.v)) = st.q
                               /\ \A i \in 1..k : r.v[i] \in inflight
 
-Effect(st, c) ==
-    CASE c.op = "add"   -> [st EXCEPT !.q = Append(@, c.v)]
-      [] c.op = "rem"   -> IF st.q # <<>> THEN [st EXCEPT !.q = Tail(@)] ELSE st
-      [] c.op = "close" -> [st EXCEPT !.closed = TRUE]
-      [] c.op = "clear" -> [st EXCEPT !.q = <<>>]
-      [] OTHER -> st
+Effects(st, c) ==
+    CASE c.op = "add"   -> {[st EXCEPT !.q = Append(@, c.v)]}
+      [] c.op = "rem"   -> {IF st.q # <<>> THEN [st EXCEPT !.q = Tail(@)] ELSE st}
+      [] c.op = "close" -> {[st EXCEPT !.closed = TRUE]}
+      [] c.op = "clear" -> {[st EXCEPT !.q = <<>>], [st EXCEPT !.q = <<>>, !.closed = FALSE]}
+      [] OTHER -> {st}
 =============================================================================
